@@ -251,10 +251,26 @@ def coveredB (t : Table) (s : Nat) : Bool :=
 
 /-! ### the two script interpreters used by the driver (`rm-script`, `gate-script`) -/
 
+/-- `isConfigSnapshotNewerThan` (rollback_mitigation.go:97-112) on what `getRevEpochAndID` (lines 78-86) reads out of
+    the two snapshots: `old` / `new` = (revEpoch, revID) of `r.configSnapshot` / of the snapshot `configWatch` fetched.
+        if newEpoch < oldEpoch { return false }
+        else if newEpoch == oldEpoch { if newRevID == oldRevID { return false } else if newRevID < oldRevID { return false } }
+        return true -/
+def isNewer (old new : Nat × Nat) : Bool :=
+  if new.1 < old.1 then false
+  else if new.1 == old.1 then
+    if new.2 == old.2 then false
+    else if new.2 < old.2 then false
+    else true
+  else true
+
 /-- steps of harness stream `c07rm` for ONE vBucket (one table) -/
 inductive RmStep
   | start (order : List Nat)                   -- `Start()` / pure config bump: reset, then every listed copy reports, in `order`
   | remap (absentIdx : List Nat) (order : List Nat)   -- new vBucket map row, then as `start`
+  /-- the cluster publishes a config with revision (revEpoch `e`, rev `r`) whose row of this vBucket is `absentIdx`;
+      `configWatch` adopts it only when it is newer than the one in use (`isNewer`), then as `start` -/
+  | config (e r : Nat) (absentIdx : List Nat) (order : List Nat)
   | change (idx uuid seq : Nat)                -- one copy's answer changes (transient TMPFAIL/BUSY/timeout are retried below the callback)
   | idle
   | stop
@@ -274,6 +290,12 @@ structure RmSim where
   absentIdx : List Nat
   rm : Rm := {}
   started : Bool := false
+  /-- (revEpoch, rev) of the config the cluster published last (the harness starts every cluster at (2,100)) -/
+  pub : Nat × Nat := (2, 100)
+  /-- (revEpoch, rev) of `r.configSnapshot`, the config the mitigation works with -/
+  use : Nat × Nat := (2, 100)
+  /-- counterfactual used by the monitor only: an instance that never adopts a `config` step (keeps the OLD copy layout) -/
+  stale : Bool := false
 deriving Repr, Inhabited
 
 namespace RmSim
@@ -286,15 +308,24 @@ def reports (s : RmSim) (order : List Nat) : RmSim × List (Table × Nat) :=
     | (rm', .dispatch m) => ({ acc.1 with rm := rm' }, acc.2 ++ [(rm'.table, m)])
     | (rm', _) => ({ acc.1 with rm := rm' }, acc.2)) (s, [])
 
+/-- the cluster publishes revision `p` with the row `ab`.  `Start()` takes whatever config there is
+    (`waitFirstConfig`, lines 379-413); afterwards `configWatch` (lines 88-95) calls `reconfigure` only for a snapshot
+    that `isConfigSnapshotNewerThan` accepts (`acc`) – otherwise nothing happens: no reset, the OLD layout stays -/
+def publish (s : RmSim) (p : Nat × Nat) (ab : List Nat) (order : List Nat) (acc : Bool) : RmSim × List (Table × Nat) :=
+  if s.rm.closed then ({ s with absentIdx := ab, pub := p }, []) else
+  if !s.started || acc then
+    ({ s with absentIdx := ab, pub := p, use := p, rm := s.rm.reconfigure s.numReplicas ab, started := true } : RmSim).reports order
+  else ({ s with absentIdx := ab, pub := p }, [])
+
 /-- one script step: new state, the dispatches it causes (with the table each was computed
-    from), and whether the step is the `Stop()` call -/
+    from), and whether the step is the `Stop()` call.  `start` (after the first) and `remap` publish the next rev of the
+    current epoch, `config` an arbitrary revision. -/
 def step (s : RmSim) : RmStep → RmSim × List (Table × Nat)
   | .start order =>
-    if s.rm.closed then (s, []) else
-    ({ s with rm := s.rm.reconfigure s.numReplicas s.absentIdx, started := true } : RmSim).reports order
-  | .remap ab order =>
-    if s.rm.closed then ({ s with absentIdx := ab }, []) else
-    ({ s with absentIdx := ab, rm := s.rm.reconfigure s.numReplicas ab, started := true } : RmSim).reports order
+    if !s.started then s.publish s.pub s.absentIdx order true
+    else s.publish (s.pub.1, s.pub.2 + 1) s.absentIdx order (isNewer s.use (s.pub.1, s.pub.2 + 1))
+  | .remap ab order => s.publish (s.pub.1, s.pub.2 + 1) ab order (isNewer s.use (s.pub.1, s.pub.2 + 1))
+  | .config e r ab order => s.publish (e, r) ab order (!s.stale && isNewer s.use (e, r))
   | .change i u q =>
     let s1 := { s with truth := s.truth.set i (u, q) }
     if !s.started then (s1, []) else s1.reports [i]
@@ -305,6 +336,7 @@ def step (s : RmSim) : RmStep → RmSim × List (Table × Nat)
 def obsOf : RmStep → List Nat → RmObs
   | .start _, l => .many l
   | .remap _ _, l => .many l
+  | .config _ _ _ _, l => .many l
   | .change _ _ _, [] => .nothing
   | .change _ _ _, m :: _ => .one m
   | .idle, _ => .nothing
